@@ -117,6 +117,15 @@ class Scenario:
         kit = record["kit"] = K.Kit(env, runtime)
         end, population = phase["end"], phase["population"]
         stop_at = phase.get("stop_at", 0.5)
+
+        def running_or_over():
+            """Wait for the runner to report running; False if its accept() ended first (a
+            payload may fail before the runner ever gets that far)"""
+            env.sched.wait_until(
+                lambda: runtime.running.peek() or record["outcome"] is not None,
+                kind="event-wait")
+            return runtime.running.peek()
+
         cleanup = 0.0
         if population in ("sleepers", "shielded"):
             kit.submit({"id": tag + "-asyncio", "flavour": "asyncio", "steps": [("forever", 0.4)],
@@ -169,15 +178,16 @@ class Scenario:
                 env.log("shutdown-returned", phase=index)
 
         def shutdown_payload():
-            runtime.running.wait()
+            if not running_or_over():
+                return
             if stop_at:
                 env.sleep(stop_at)
             end_action()
 
         if end in HELPER_ENDS:
             def request(_env):
-                runtime.running.wait()      # the property speaks of a runner that reports running
-                end_action()
+                if running_or_over():   # the property speaks of a runner that reports running
+                    end_action()
 
             env.shared["request-stop-%d" % index] = request
             kit.submit({"id": tag + "-requester", "flavour": end.split("-")[1],
@@ -197,7 +207,8 @@ class Scenario:
                        cost=phase.get("sigint_cost", 1), name="~sigint%d" % index)
 
         def driver():
-            runtime.running.wait()
+            if not running_or_over():
+                return
             env.log("running-seen", phase=index)
             if stop_at:
                 env.sleep(stop_at)
@@ -210,7 +221,8 @@ class Scenario:
         env.spawn(driver, "driver%d" % index)
 
         def second_caller():
-            runtime.running.wait()
+            if not running_or_over():
+                return
             if stop_at:
                 env.sleep(stop_at)
             env.log("second-shutdown-call", phase=index)
@@ -234,7 +246,8 @@ class Scenario:
             other.shutdown()
 
         def concurrent():
-            runtime.running.wait()
+            if not running_or_over():
+                return
             env.sleep(phase.get("concurrent_at", 0.2))
             # a refused accept must leave everything as it was: the next one is refused too
             for attempt in range(phase.get("concurrent_count", 1)):
@@ -317,7 +330,7 @@ class Scenario:
                     "%s:accept-does-not-start:%s" % (label, previous),
                     "runner %d (%s) did not start accepting: %r" % (index, previous, why)))
                 break
-            if not running_seen and end in HELPER_ENDS and end_call:
+            if not running_seen and end.startswith("shutdown") and end_call:
                 # the request itself waited for `running`; the observer thread simply was
                 # not scheduled before the end
                 running_seen = [0.0]
@@ -385,10 +398,16 @@ class Scenario:
                 called = [s for s, n, w, e, d in mine if e == "concurrent-accept-call"]
                 results = [(s, e) for s, n, w, e, d in mine
                            if e in ("concurrent-accept-raised", "concurrent-accept-returned")]
+                # "certainly accepting": reported running, and nothing has asked it to end yet
+                # (an accept that arrives while the runner winds down may find the guard free)
+                winding_down = [s for s, n, w, e, d in ex.log
+                                if e in ("sigint-raised", "sigint-delivered")] + [
+                    s for s, n, w, e, d in mine if e == "end-call"] + [ended_seq]
+                certain_until = min(winding_down)
                 for number, call in enumerate(called):
                     # called while the first runner was certainly accepting: it has to be
                     # refused, not admitted and not made to wait for its turn
-                    if not (seen and seen[0] < call < ended_seq):
+                    if not (seen and seen[0] < call < certain_until):
                         continue
                     until = called[number + 1] if number + 1 < len(called) else 1 << 60
                     result = [e for s, e in results if call < s < until]
